@@ -133,6 +133,27 @@ pub fn exhaustive_key(out: &mut Out, coll: &str, u: i64, tmax: i64, max_states: 
 
 pub struct RandCfg { pub len: usize, pub universe: i64, pub cap: usize, pub variant: u32, pub profile: u32 }
 
+/// search mode only: the structure oracle has failed; run a fixed, result-level probe on the broken collection
+/// (fresh keys, handles taken and re-read across insertions, deletions followed by lookups) so that the
+/// consequences of the broken invariant show up as wrong answers
+fn consequence_probe(r: &mut Runner, u: i64) {
+    let b = u + 10;
+    let keys = [b + 3, b + 4, b + 5, b + 1, b + 2];
+    let mut held: Vec<(i64, i64)> = vec![];
+    for (i, &k) in keys.iter().enumerate() {
+        r.step(&Op::new("insert", &[k, 1000 + i as i64]), None);
+        let o = r.step(&Op::new("fil", &[k]), None);
+        if let Ok(h) = o.parse::<i64>() { held.push((k, h)); }
+        for &(kk, h) in &held { r.step(&Op::new("validx", &[h]), Some(kk)); }
+        if r.dead { return; }
+    }
+    for &k in &[b + 4, b + 1, b + 5] {
+        r.step(&Op::new("delete", &[k]), None);
+        for &kk in &keys { r.step(&Op::new("get", &[kk]), None); }
+        if r.dead { return; }
+    }
+}
+
 pub fn random_mapset(out: &mut Out, coll: &str, rng: &mut Rng, cfg: &RandCfg) {
     let suite = format!("{}rand-{}", if arena_mode() { "arena-" } else { "" }, coll);
     let mut r = Runner::new(out, &suite, coll, cfg.cap, cfg.variant);
@@ -143,6 +164,7 @@ pub fn random_mapset(out: &mut Out, coll: &str, rng: &mut Rng, cfg: &RandCfg) {
     let (w_ins, w_del) = match cfg.profile { 1 => (60, 10), 2 => (30, 35), 3 => (25, 10), _ => (35, 20) };
     for _ in 0..cfg.len {
         if r.dead { break; }
+        if r.in_pm { consequence_probe(&mut r, u); break; }
         let entries = r.real.entries().unwrap_or_default();
         let x = rng.below(100);
         let n = entries.len() as i64;
@@ -276,6 +298,27 @@ pub fn corpus(out: &mut Out, path: &str) -> usize {
                 let ek = if matches!(op.name.as_str(), "delidx" | "validx" | "setidx" | "after" | "before") {
                     r.real.entries().unwrap_or_default().iter().find(|e| e.0 as i64 == op.a[0]).map(|e| e.1)
                 } else { None };
+                // a replayed (possibly shrunk) history must itself respect the contract of the collection;
+                // otherwise whatever it shows is not a property failure
+                if !r.in_pm {
+                    let expiring = matches!(h[0], "key" | "klist");
+                    let mut bad: Option<String> = None;
+                    if matches!(op.name.as_str(), "delidx" | "validx" | "setidx" | "after" | "before") && ek.is_none() {
+                        bad = Some(format!("`{}`: the handle does not designate a stored entry", op.text()));
+                    }
+                    if op.name == "insert" {
+                        if expiring {
+                            if op.a.len() >= 4 && (op.a[3] < r.refm.last_t || op.a[1] < op.a[3] || r.refm.is_live(op.a[0], op.a[3])) {
+                                bad = Some(format!("`{}`: time goes back, expiration below insertion time, or key is live", op.text()));
+                            }
+                        } else if r.refm.m.contains_key(&op.a[0]) {
+                            bad = Some(format!("`{}`: key is already stored", op.text()));
+                        }
+                    } else if expiring && matches!(op.name.as_str(), "fl" | "fle" | "fleby" | "get" | "export") && op.a[0] < r.refm.last_t {
+                        bad = Some(format!("`{}`: time goes back", op.text()));
+                    }
+                    if let Some(b) = bad { r.fail(&["REPLAY"], &format!("history is out of contract at {}", b), "in-contract history", "out of contract"); break; }
+                }
                 r.step(&op, ek);
             }
         }
